@@ -127,8 +127,8 @@ CHECKS["C15"] = dict(
 
 CHECKS["C19"] = dict(
     engine="symex", category="other",
-    text="PARTIAL. Decided on the real source: (a) get_citations' own tail (dispatch, reference collection, parallel detection, filter) executed with and without reference citations on the same prepared citations gives the same non-reference citations, order and parallel comparisons (self-composition per path); (b) every reference produced by extract_pincited_reference_citations starts at or after its citation's span end, has 0 <= full start <= start <= end <= full end <= len(text) and its token text is the slice at its span.",
-    note="NOT decided: the html cleaning step (lxml) and so the whole-pipeline equality with get_citations(clean_text(markup)); find_reference_citations_from_markup only through the SpanUpdater laws of C10 plus concrete markup documents (a regression corpus, not a solver result).",
+    text="PARTIAL. Decided on the real source: (a) get_citations' own tail (dispatch, reference collection, parallel detection, filter) executed with and without reference citations on the same prepared citations gives the same non-reference citations, order and parallel comparisons (self-composition per path); (b) every reference produced by extract_pincited_reference_citations starts at or after its citation's span end, has 0 <= full start <= start <= end <= full end <= len(text) and its token text is the slice at its span; (c) find_reference_citations_from_markup with both real SpanUpdaters built from a symbolic diff script and its inverse gives references with valid plain-text offsets that do not start before their citation.",
+    note="NOT decided: the html cleaning step (lxml) and so the whole-pipeline equality with get_citations(clean_text(markup)); concrete markup documents serve as the replay corpus for solver counter-models.",
     technique=SYMEX, design_ref="DESIGN.md section 3, C19",
 )
 
